@@ -213,6 +213,8 @@ def main(argv=None):
         pass
     mod = importlib.import_module('vt.props.' + a.prop.lower())
     cfg = mod.config(a.tier)
+    if cfg.get('soft_s') and os.environ.get('VERIF_SOFT_SCALE'):
+        cfg['soft_s'] = cfg['soft_s'] * float(os.environ['VERIF_SOFT_SCALE'])  # debugging aid: reach further on a loaded machine
     sh = Shard(mod, a.tier)
     sh.journal = a.out + '.current'
     out = {'prop': a.prop, 'tier': a.tier, 'seed': a.seed, 'shard': a.shard}
